@@ -101,7 +101,8 @@ def sub_periods(text, def_unit):
 
 LONG = {
     "month": ["2018", "2019", "year:2018-07", "year:2017:2", "month:2018-01:3", "month:2018-11:4", "year:2019-03", "month:2018-06:12"],
-    "day": ["2018-02", "2020-02", "2018-01", "2018-04", "month:2018-01:2", "day:2018-02-26:5", "day:2018-01-01:10", "month:2018-01-15", "2019"],
+    "day": ["2018-02", "2020-02", "2018-01", "2018-04", "month:2018-01:2", "day:2018-02-26:5", "day:2018-01-01:10", "month:2018-01-15", "2019",
+            "year:2019-03", "year:2019-07", "year:2020-03", "2020"],
     "year": ["year:2018:2", "year:2017:3", "year:2018:3"],
 }
 SHORT = {
